@@ -1,24 +1,87 @@
 # Table read by bin/mkmanifest. add(property, category, text, technique, note)
-add("C02", "other",
-    "Deductive kernel: the half-spectrum walk of STFT._compute_frame is proved, for every DFT size, start bin, filter length and flag "
-    "combination, to pair each filter tap exactly once with the full-spectrum bin (b0+j) mod D (conjugate-mirrored beyond Nyquist), "
-    "with the doubling for real banks, the log floor and the energy coefficient at index 0, from loop invariants on the real source. "
-    "Numeric agreement with an independent full-DFT oracle is checked by a bounded stand-in. Mixed proof + bounded, hence 'other'.",
-    "contract-based deductive verification (sidecar contracts -> VCs from the real AST -> z3) + bounded runtime-contract stand-in")
+T = "contract-based deductive verification (sidecar contracts on the real functions -> VCs generated from the AST on every run -> z3/cvc5)"
+TB = T + " + bounded runtime-contract stand-in for what no VC decides"
+MIX = " Mixed proof + bounded, hence 'other'; the evidence file gives obligations/discharged and, separately and labelled bounded, the stand-in's counts."
+
 add("C01", "other",
-    "Deductive kernel (STFT): compute_chunk is proved to preserve a data invariant relating its buffer, counters and the ghost "
-    "stream of all samples fed so far, and to hand _compute_frame exactly the documented frames, for every frame length, shift <= length, "
-    "chunk length and history, in all three framing modes; finalize is proved to emit exactly the remaining frames of the whole-signal "
-    "specification (count and contents, with the symmetric reflection) and compute_full to meet the same specification; so any chunking "
-    "followed by finalize equals compute_full by induction over chunks. The short-integration computer and value-level round-off are "
-    "decided by a bounded stand-in (chunked vs whole runs of the real code). Mixed proof + bounded, hence 'other'.",
-    "contract-based deductive verification (loop/data invariants with ghost stream -> VCs from the real AST -> z3) + bounded runtime-contract stand-in")
-BOUNDED = ("At this commit the property is decided by its bounded runtime-contract stand-in only (executable contracts on the real functions "
-           "driven by enumerated / seeded inputs against an independent oracle; bounds in the evidence file); the deductive obligations for "
-           "its functions are being added. Bounded, not proof, hence 'other'.")
-TECH_B = "runtime contracts on the real functions (bounded stand-in of the contract-based deductive check; VCs in progress)"
-for p in ["C03", "C04", "C05", "C06", "C07", "C08", "C09", "C10", "C11", "C12", "C13", "C14", "C15", "C16", "C17", "C18", "C20"]:
-    add(p, "other", BOUNDED, TECH_B)
+    "STFT: compute_chunk is proved to preserve a data invariant relating its buffer, counters and the ghost stream of all samples fed so far, and "
+    "to hand _compute_frame exactly the documented frames, for every frame length, shift <= length, chunk length and history, in all three framing "
+    "modes; finalize is proved to emit exactly the remaining frames of the whole-signal specification (count and contents incl. the symmetric "
+    "reflection, outside the one open known finding) and frame_by_frame_calculation to feed consecutive slices covering the signal once; so any "
+    "chunking followed by finalize equals compute_full by induction over chunks. The short-integration computer and value-level round-off are "
+    "decided by the bounded stand-in (chunked vs whole runs of the real code, exhaustive over small L, s, N)." + MIX, TB)
+add("C02", "other",
+    "Proved for all sizes and flags: compute_full returns NF(N) frames, each the documented sample range with symmetric reflection; _compute_frame's "
+    "half-spectrum walk pairs every filter tap exactly once with full-spectrum bin (b0+j) mod D (conjugate-mirrored past Nyquist), with the doubling "
+    "for real banks, log floor and energy coefficient; the doubling's precondition (zero taps at DC/Nyquist, support inside the half spectrum) is "
+    "proved for the triangular bank from its constructor's invariant. Numeric agreement with an independent full-DFT oracle and the default-frame-"
+    "length clause are bounded." + MIX, TB)
+add("C03", "other",
+    "Bounded only at this commit: the short-integration coefficients are compared with a direct-convolution oracle written from the statement, over "
+    "banks x styles x flags x dtypes x lengths; no function of the SI computer is under contract yet (nested overlap-save loops; see DESIGN 10.5)." + MIX,
+    "runtime contracts on the real functions against an independent oracle (bounded stand-in; deductive obligations not built for this property)")
+add("C04", "other",
+    "Proved: finalize resets every per-utterance attribute to the constructor's value (constants read from __init__), the fresh state satisfies the "
+    "data invariant of an empty utterance whatever the buffer holds, compute_full / frame_by_frame_calculation raise ValueError exactly when started "
+    "and write nothing before raising, compute_chunk establishes started, and no store reaches a parameter array (STFT). The short-integration "
+    "computer and arbitrary call histories are exercised by the bounded stand-in (bit-exact comparison with fresh instances)." + MIX, TB)
+add("C05", "other",
+    "Proved for the triangular bank against the CONTRACT of ScalingFunction (strictly increasing, mutually inverse maps - C19): vertices equally spaced "
+    "on the scale, strictly increasing, from low_hz to min(high_hz, Nyquist); ValueError exactly for the stated bad ranges; the truncated response "
+    "equals the documented triangle at every bin. Gain, 3 dB / ERB / L2 constants and the other three banks are bounded (numeric)." + MIX, TB)
+add("C06", "other",
+    "Proved for the triangular bank: start bin in [0, width), support within the half spectrum, taps equal to the documented triangle (so the "
+    "rebuilt response is the full response), zero at DC / Nyquist. The 2 x threshold clause for Gabor / gammatone, Fbank, half/full prefixes and "
+    "Hermitian symmetry are bounded, including reuse of one bank object across requests." + MIX, TB)
+add("C07", "other",
+    "Bounded only: the property is numerical Fourier analysis (inverse DFT vs impulse response within 2 x threshold, tail magnitudes outside the "
+    "advertised supports); no VC decides it. The stand-in checks the statement's domain exactly, including the library's default configurations." + MIX,
+    "runtime contracts on the real functions (bounded stand-in; no obligation within reach decides the numerical clauses)")
+add("C08", "other",
+    "Proved: alias_factory_subclass_from_arg over all argument shapes (instance / str / mapping with alias, name, both, neither): which constructor "
+    "call is made with which keywords, KeyError when neither key is present, the caller's mapping never mutated. Registry resolution is exhaustive "
+    "by enumeration (AST-read class table vs the real from_alias) and shadowing / nested JSON round trips are bounded." + MIX, TB)
+add("C09", "other",
+    "Proved: the torch STFT functional the torch tool stores meets the same frame/walk/value specification as compute_full (see C14); both tools "
+    "use a given --seed (0 included) as the base seed. Everything else of the two script-like functions is exercised end to end by the bounded "
+    "stand-in (real entry points vs the library pipeline)." + MIX, TB)
+add("C10", "other",
+    "Proved on statement slices of signals_to_torch_feat_dir with an effect trace (assumed torch.save / buffered-file contracts): a manifest line is "
+    "written only after its file is complete, is flushed with the write, files are named dir/prefix+utt+suffix, every item once and in order; the "
+    "base seed is the given --seed; each utterance is seeded by base + its position in the FULL map before anything else. Real kills (SIGKILL / "
+    "KeyboardInterrupt at every write) and worker counts are bounded." + MIX, TB)
+add("C11", "other",
+    "Proved: read_signal's dispatch for an arbitrary force_as string (exactly the documented helper, called with (source, dtype, key, **kwargs), "
+    "result returned unchanged; ValueError for a stream without force_as, kaldi/table with a stream, or an undocumented force_as, before any reader "
+    "runs), the suffix inference against the documented order (z3 strings), and wds_read_signal's totality. Container round trips are bounded." + MIX, TB)
+add("C12", "other",
+    "Proved: copy_samples' read loop against a ghost byte stream for every channel count, sample count and file length (cursor and decoded-prefix "
+    "invariants; result count = min(sample_count, whole frames present), values, shape, warning iff truncated, no uninitialised cell), for PCM and "
+    "both G.711 codings with and without expansion; both G.711 tables equal the ITU-T expansion on all 256 codes (exhaustive). Header parsing and "
+    "real files are bounded." + MIX, TB)
+add("C13", "other",
+    "Bounded only at this commit: round trips through an independent shorten encoder (all commands, versions 1-2, channel counts, block sizes, bit "
+    "shifts, mean lengths), the six sph2pipe vectors, and the error classes; the bit reader is not under contract (DESIGN 10.5)." + MIX,
+    "runtime contracts on the real functions against an independent encoder (bounded stand-in; deductive obligations not built for this property)")
+add("C14", "other",
+    "Proved: pytorch_stft_frame_computer against the same specification as the NumPy computer, for every length/shift/DFT size/flag in the three "
+    "framing modes and N >= L or N < L//2+1: frame count and empty shape, padded signal = spec frames, as_strided memory safety, the mirrored walk, "
+    "per-column values and energy. float32, TorchScript, the wrappers and dither moments are bounded." + MIX, TB)
+add("C15", "other",
+    "Bounded only at this commit: Deltas and Stack against index-map oracles over ranks 1-4, axes of either sign, padding modes (including "
+    "width-dependent ones), dtypes; N-D tensor code is outside the 1-D array model of the VC generator (DESIGN 10.5)." + MIX,
+    "runtime contracts on the real functions against index-map oracles (bounded stand-in; deductive obligations not built for this property)")
+add("C16", "other",
+    "Proved for vectors: _accumulate_vector adds (1, x, x^2) to the statistics (additivity), preserves the class invariant (integer count, "
+    "non-negative squares) and raises ValueError before writing on a length mismatch; _apply_vector returns (x - mean) * k with the accumulated "
+    "moments, float64, input untouched unless in_place; have_stats is true iff a vector was accumulated. Tensors, axes and local statistics are bounded." + MIX, TB)
+add("C17", "other",
+    "Proved: every statistics state reachable through accumulate satisfies the invariant under which _sanitize_stats's validity test (read from the "
+    "source) accepts it on the first pass. Real files for every target/key/compress/overwrite combination are bounded." + MIX, TB)
+add("C18", "other",
+    "Proved for 1-D signals with the default axis: Preemphasize.apply returns y[0]=x[0], y[i]=x[i]-coeff*x[i-1] with the OLD neighbour; Dither.apply "
+    "adds coeff times one fresh RNG draw (so independent of the signal, linear in coeff); result dtype = input dtype; the input is stored into only "
+    "when in_place and float64, and then written through. Noise moments and dtype round-off are bounded." + MIX, TB)
 add("C19", "proof",
     "Every clause of the property is a discharged obligation over the real methods: both methods of each of the four scaling functions are "
     "executed symbolically from the repository source (all paths), and inverse pairs in both directions, strict monotonicity of both maps, "
@@ -27,3 +90,7 @@ add("C19", "proof",
     "for all real frequencies and parameters (floats as reals, exp/ln as uninterpreted functions with inverse/monotonicity axioms). A bounded "
     "stand-in additionally measures the floating-point round-off on finite grids.",
     "contract-based deductive verification: symbolic execution of the real methods to terms, lemmas over the terms discharged by z3 (NRA + UF axioms)")
+add("C20", "other",
+    "Proved: circshift_fourier multiplies the filter by exp(-2 pi i (shift mod D)((start+k) mod D)/D) with D defaulted to len+start, every operand "
+    "defined on every path, copy=True never storing into the input and copy=False/complex128 writing through; hertz_to_angular / angular_to_hertz "
+    "are mutual inverses. Window shapes, GammaWindow and gauss_quant accuracy/monotonicity are bounded." + MIX, TB)
